@@ -6,6 +6,8 @@
 //verif:cover VerifC18CommitFault commit-failed
 //verif:assume staging write fault: the staging file system accepts only the first k (0..4) bytes of a five-byte write
 //verif:cover VerifC18WriteFault short-write
+//verif:assume staging read fault: reading a staged five-byte file back fails after k (0..4) bytes while Commit() uploads it
+//verif:cover VerifC18CommitReadFault commit-failed
 //verif:cover VerifC18Programs eexist enoent enotempty renamed replaced-by-rename committed-nested-file in-place-overwrite extending-truncate prelude-nested-file prelude-inode-reuse
 package fuse
 
@@ -402,4 +404,35 @@ func VerifC18WriteFault() {
 	ga := &fuseops.GetInodeAttributesOp{Inode: cf.Entry.Child}
 	vAssert(fs.GetInodeAttributes(ctx, ga) == nil, "getattr")
 	vAssert(ga.Attributes.Size <= uint64(room), "size-never-claims-bytes-that-were-not-stored")
+}
+
+// VerifC18CommitReadFault: the staging area fails in the middle of a file while Commit() uploads it: the commit
+// reports the failure; it never publishes a bundle holding a truncated file.
+func VerifC18CommitReadFault() {
+	vBudget(400000000)
+	vUnwind(200000)
+	fs, stores := vNewMutable()
+	ctx := context.Background()
+	cf := &fuseops.CreateFileOp{Parent: fuseops.RootInodeID, Name: "x"}
+	vAssert(fs.CreateFile(ctx, cf) == nil, "create")
+	vAssert(fs.WriteFile(ctx, &fuseops.WriteFileOp{Inode: cf.Entry.Child, Offset: 0, Data: []byte("hello")}) == nil, "write")
+	staging, _ := fs.localCache.(*vFs)
+	vAssert(staging != nil, "staging")
+	cut := vInt("cutAfter", 0, 4)
+	staging.readCut = map[string]int{}
+	for name, node := range staging.nodes {
+		if !node.dir && len(node.data) == 5 {
+			staging.readCut[name] = cut
+		}
+	}
+	vAssert(len(staging.readCut) == 1, "staged-file")
+	err := fs.Commit()
+	if err != nil {
+		vCover("commit-failed")
+		return
+	}
+	meta, _ := stores.Metadata().(*vStore)
+	_, hasDesc := meta.data[model.GetArchivePathToBundle("r", fs.bundle.BundleID)]
+	vAssert(!hasDesc, "no-bundle-with-a-truncated-file-is-published")
+	vAssert(false, "commit-over-a-failing-staging-read-reports-failure")
 }
